@@ -38,6 +38,24 @@ class Tree:
                 out.append(os.path.relpath(os.path.join(dp, n), self.root))
         return sorted(out)
 
+    def entries_follow(self, maxdepth=4):
+        """entries reachable also through symlinked directories, up to a depth (paths as a user could write them)"""
+        out = set()
+
+        def rec(rel, depth):
+            p = os.path.join(self.root, rel) if rel else self.root
+            try:
+                names = os.listdir(p)
+            except OSError:
+                return
+            for n in names:
+                r = (rel + '/' + n) if rel else n
+                out.add(r)
+                if depth < maxdepth and os.path.isdir(os.path.join(self.root, r)):
+                    rec(r, depth + 1)
+        rec('', 1)
+        return sorted(out)
+
     def cleanup(self):
         shutil.rmtree(self.base, ignore_errors=True)
 
@@ -85,8 +103,10 @@ def random_spec(rng, size=10, links=True, hidden=True, case=False, cycles=True):
             elif k < 0.8:
                 files = [s for s in spec if s[1] == 'f']
                 target = ('../' * depth + rng.choice(files)[0]) if files else 'nowhere'
-            else:
+            elif k < 0.9:
                 target = 'nowhere'                               # dangling
+            else:
+                target = n                                       # points at itself: ELOOP
             spec.append((rel, 'l', target))
     return spec
 
@@ -163,3 +183,16 @@ class FSRecorder:
     def __exit__(self, *a):
         self._os.scandir = self._scandir
         self._os.path.lexists = self._lexists
+
+
+DESIGNED = [
+    [('real', 'd', None), ('real/x.txt', 'f', None), ('real/sub', 'd', None), ('real/sub/y.txt', 'f', None), ('vis', 'l', 'real'),
+     ('.link', 'l', 'real'), ('f', 'f', None), ('lf', 'l', 'f'), ('dang', 'l', 'nowhere'), ('.hf', 'f', None)],
+    [('data', 'd', None), ('data/one.txt', 'f', None), ('DATA', 'd', None), ('DATA/two.txt', 'f', None), ('other', 'd', None),
+     ('other/three.txt', 'f', None), ('a', 'd', None), ('a/x', 'f', None), ('A', 'd', None), ('A/y', 'f', None), ('ab', 'f', None), ('Ab', 'f', None)],
+    [('sub', 'd', None), ('a', 'd', None), ('a/sub', 'd', None), ('a/b', 'd', None), ('a/b/sub', 'd', None), ('c', 'd', None), ('c/sub', 'f', None),
+     ('.hd', 'd', None), ('.hd/sub', 'd', None), ('top.txt', 'f', None), ('a/b/sub/deep.txt', 'f', None)],
+    [('d', 'd', None), ('d/up', 'l', '..'), ('d/f', 'f', None), ('loop', 'l', 'loop'), ('e', 'd', None), ('e/side', 'l', '../d'), ('e/g', 'f', None)],
+    [('p1', 'd', None), ('p1/x', 'd', None), ('p1/x/f', 'f', None), ('p1/lnk', 'l', '../outside'), ('p2', 'd', None), ('p2/x', 'd', None), ('p2/x/f', 'f', None),
+     ('p2/lnk', 'l', '../outside'), ('outside', 'd', None), ('outside/x', 'd', None), ('outside/x/secret', 'f', None)],
+]
